@@ -77,7 +77,7 @@ def samePath (s : SState) (v : Verb) (t : Path) : Bool :=
 
 /-- STOR/APPE with a restart offset on a missing file in an existing directory: "r+b" creates on Memory -/
 def restartCreates (fs : Fs) (s : SState) (v : Verb) (t : Path) : Bool :=
-  (v == .stor || v == .appe) && s.restartOffset != 0 && !exists_ fs t && isDir fs t.dropLast
+  (v == .stor || v == .appe) && xferOffset v s != 0 && !exists_ fs t && isDir fs t.dropLast
 
 /-! ### guards -/
 
@@ -148,18 +148,18 @@ theorem workerB_posix_eq (w : World) (hwf : WF w.fs) (s : SState) (t : Path) (v 
   have hch : Backend.posix.children w.fs t = Backend.mem.children w.fs t := by
     simp only [Backend.posix, Backend.mem]; exact posix_list_eq hwf t
   have hopenW : (v = .stor ∨ v = .appe) →
-      Backend.posix.openFile w.fs t (if s.restartOffset ≠ 0 then 3 else (if v = .stor then 1 else 2)) =
-      Backend.mem.openFile w.fs t (if s.restartOffset ≠ 0 then 3 else (if v = .stor then 1 else 2)) := by
+      Backend.posix.openFile w.fs t (if xferOffset v s ≠ 0 then 3 else (if v = .stor then 1 else 2)) =
+      Backend.mem.openFile w.fs t (if xferOffset v s ≠ 0 then 3 else (if v = .stor then 1 else 2)) := by
     intro hv
     simp only [Backend.posix, Backend.mem]
     apply posix_openFile_eq hwf
     rintro ⟨hm, hl, hd⟩
-    by_cases hr : s.restartOffset = 0
+    by_cases hr : xferOffset v s = 0
     · simp only [hr, ne_eq, not_true_eq_false, if_false] at hm
       split at hm <;> omega
     · have hex : exists_ w.fs t = false := exists_false_iff.mpr hl
       rcases hv with rfl | rfl <;> simp [restartCreates, hr, hex, hd] at h3
-  unfold workerB
+  unfold workerB workerBK
   cases s.dataConn with
   | false => rfl
   | true =>
@@ -308,17 +308,17 @@ theorem finalize_fs (w : World) (s : SState) : (finalize w s).1.fs = w.fs := by
 
 theorem workerB_wf {B : Backend} (hB : PreservesWF B) (w : World) (hwf : WF w.fs) (s : SState) (t : Path) (v : Verb)
     (pl : Bytes) : WF (workerB B w s t v pl).1.fs := by
-  unfold workerB
+  unfold workerB workerBK
   cases s.dataConn with
   | false => exact hwf
   | true =>
     simp only [Bool.not_true, Bool.false_eq_true, if_false]
-    have hW : ∀ mode, WF (match B.openFile w.fs t mode with
+    have hW : ∀ mode k, WF (match B.openFile w.fs t mode with
         | none => (w, { s with dataConn := false }, ({ replies := [451] } : Out))
         | some (fs', c, pos) =>
-          ({ w with fs := fs'.set t (.file (Fs.writeAt c (if s.restartOffset ≠ 0 then s.restartOffset else pos) pl)) },
+          ({ w with fs := fs'.set t (.file (Fs.writeAt c (if k ≠ 0 then k else pos) pl)) },
             { s with dataConn := false }, { replies := [226] })).1.fs := by
-      intro mode
+      intro mode k
       cases ho : B.openFile w.fs t mode with
       | none => exact hwf
       | some r =>
@@ -327,8 +327,8 @@ theorem workerB_wf {B : Backend} (hB : PreservesWF B) (w : World) (hwf : WF w.fs
         exact (hwf'.set_file hc').1
     cases v with
     | retr => simp only; split <;> exact hwf
-    | stor => exact hW _
-    | appe => exact hW _
+    | stor => exact hW _ _
+    | appe => exact hW _ _
     | _ => exact hwf
 
 theorem bodyB_wf {B : Backend} (hB : PreservesWF B) (cfg : Cfg) (w : World) (hwf : WF w.fs) (s : SState) (v : Verb)
@@ -417,7 +417,7 @@ def failedOut (o : Out) : Bool := o.replies.any (fun c => decide (400 ≤ c))
 
 theorem workerB_failed {B : Backend} (w : World) (s : SState) (t : Path) (v : Verb) (pl : Bytes)
     (hf : failedOut (workerB B w s t v pl).2.2 = true) : (workerB B w s t v pl).1 = w := by
-  unfold workerB at hf ⊢
+  unfold workerB workerBK at hf ⊢
   cases hdc : s.dataConn with
   | false => simp
   | true =>
